@@ -63,18 +63,25 @@ def multi_cases(ctx, n):
     for _ in range(n):
         enc = rng.choice(list(R.ENCS))
         algs = rng.sample(NON_DIRECT, rng.randrange(2, 5))
-        for mode in ("clean", "corrupt", "other-cek"):
+        for mode in ("clean", "corrupt", "other-cek", "corrupt-relabelled", "corrupt-kid-removed"):
             idx = rng.randrange(len(algs))
             v, ks, meta = E.build_multi(rng, enc, algs, aad=rng.choice([None, b"a"]), zip_=rng.random() < 0.2,
-                                        corrupt=idx if mode == "corrupt" else None, other_cek_for=idx if mode == "other-cek" else None)
+                                        corrupt=idx if mode.startswith("corrupt") else None, other_cek_for=idx if mode == "other-cek" else None)
+            if mode == "corrupt-relabelled":
+                # the damaged entry's (unauthenticated) kid now names a key the caller does not hold: "not for us" is not "valid"
+                v["recipients"][idx]["header"]["kid"] = "somebody-else"
+            elif mode == "corrupt-kid-removed":
+                v["recipients"][idx]["header"].pop("kid", None)
             for verify_all in (True, False):
                 reg = E.JReg(verify_all=verify_all)
 
                 def expect(case, impl, mode=mode, verify_all=verify_all):
                     if mode == "clean" and impl[0] != "ok":
                         return f"a valid JWE for several recipients was rejected: {impl[1]}"
-                    if mode == "corrupt" and verify_all and impl[0] == "ok":
-                        return "default mode: plaintext returned although one recipient could not recover the key"
+                    if mode.startswith("corrupt") and verify_all and impl[0] == "ok":
+                        return f"default mode: plaintext returned although one recipient could not recover the key ({mode})"
+                    if mode in ("corrupt-relabelled", "corrupt-kid-removed") and impl[0] == "ok":
+                        return f"plaintext returned although a recipient entry names no key of the caller's set ({mode})"
                     if mode == "other-cek" and impl[0] == "ok":
                         return "plaintext returned although the recipients yield different content-encryption keys"
                     return None
